@@ -763,6 +763,11 @@ func (e *Env) call(x *ECall) TV {
 	if _, ok := e.File.Folds[x.Fn]; ok {
 		return TV{T: sx.App("fold_"+x.Fn, e.Tr(x.Args[0]).T), Ty: I}
 	}
+	if strings.HasPrefix(x.Fn, "unbox_L_") { // an `any` value (result of a cross-contract call) seen as a list of the named sort
+		ln := strings.TrimPrefix(x.Fn, "unbox_")
+		Declare("uf:"+x.Fn, fmt.Sprintf("(declare-fun %s (Any) %s)", x.Fn, ln))
+		return TV{T: sx.App(x.Fn, e.Tr(x.Args[0]).T), Ty: Type{K: KList, Name: ln}}
+	}
 	if strings.HasPrefix(x.Fn, "empty_L_") { // an empty, non-nil list of the named list sort
 		ln := strings.TrimPrefix(x.Fn, "empty_")
 		return TV{T: sx.App("mk"+ln, sx.Bool(false), sx.Int(0), sx.Atom("arr0_"+ln)), Ty: Type{K: KList, Name: ln}}
@@ -830,6 +835,8 @@ func (e *Env) call(x *ECall) TV {
 		return TV{T: sx.App("native_std_StringSplit", toBytes(e.Tr(x.Args[0])), toBytes(e.Tr(x.Args[1]))), Ty: Type{K: KList, Name: "L_NB"}}
 	case x.Fn == "indexof":
 		return TV{T: sx.App("str.indexof", toBytes(e.Tr(x.Args[0])), toBytes(e.Tr(x.Args[1])), sx.Int(0)), Ty: I}
+	case x.Fn == "suffixof":
+		return TV{T: sx.App("str.suffixof", toBytes(e.Tr(x.Args[0])), toBytes(e.Tr(x.Args[1]))), Ty: B}
 	case x.Fn == "contains":
 		return TV{T: sx.App("str.contains", toBytes(e.Tr(x.Args[0])), toBytes(e.Tr(x.Args[1]))), Ty: B}
 	case x.Fn == "aslist":
